@@ -99,32 +99,30 @@ namespace smt
             switch (value(right))
             {
             case True:
-                return TRUE_lit; // the variables assume the same value..
+                return TRUE_lit; // the literals assume the same value..
             case False:
-                return FALSE_lit; // the variables cannot assume the same value..
-            case Undefined:
-                return sign(left) == sign(right) ? right : !right;
+                return FALSE_lit; // the literals cannot assume the same value..
+            default:
+                return right; // 'left' is true, hence the equality holds iff 'right' is true..
             }
-            [[fallthrough]];
         case False:
             switch (value(right))
             {
             case True:
-                return FALSE_lit; // the variables cannot assume the same value..
+                return FALSE_lit; // the literals cannot assume the same value..
             case False:
-                return TRUE_lit; // the variables assume the same value..
-            case Undefined:
-                return sign(left) == sign(right) ? !right : right;
+                return TRUE_lit; // the literals assume the same value..
+            default:
+                return !right; // 'left' is false, hence the equality holds iff 'right' is false..
             }
-            [[fallthrough]];
-        case Undefined:
+        default:
             switch (value(right))
             {
             case True:
-                return sign(left) == sign(right) ? left : !left;
+                return left; // 'right' is true, hence the equality holds iff 'left' is true..
             case False:
-                return sign(left) == sign(right) ? !left : left;
-            case Undefined:
+                return !left; // 'right' is false, hence the equality holds iff 'left' is false..
+            default:
                 break;
             }
         }
